@@ -644,11 +644,8 @@ func (c *Client) handleAgentCallback(event Event) { //nolint:cyclop
 	c.mux.Lock()
 	closed := c.closed
 	transaction, found := c.t[event.TransactionID]
-	if found {
-		delete(c.t, transaction.id)
-	}
-	c.mux.Unlock()
 	if !found {
+		c.mux.Unlock()
 		if !closed && c.handler != nil && !errors.Is(event.Error, ErrTransactionStopped) {
 			c.handler(event)
 		}
@@ -661,33 +658,41 @@ func (c *Client) handleAgentCallback(event Event) { //nolint:cyclop
 	}
 	if closed || atomic.LoadInt32(&c.maxAttempts) <= transaction.attempt || event.Error == nil {
 		// Transaction completed.
+		delete(c.t, transaction.id)
+		c.mux.Unlock()
 		transaction.handle(event)
 		putClientTransaction(transaction)
 
 		return
 	}
-	// Doing re-transmission.
+	// Doing re-transmission. The transaction stays registered, so response
+	// that arrives meanwhile still finds it.
 	transaction.attempt++
 	buff := bufferPool.Get().(*buffer) //nolint:forcetypeassert
 	buff.buf = append(buff.buf[:0], transaction.raw...)
 	defer bufferPool.Put(buff)
 	var (
-		now     = c.clock.Now()
-		timeOut = transaction.nextTimeout(now)
-		id      = transaction.id
+		id           = transaction.id
+		timeOutAfter = time.Duration(transaction.attempt+1) * transaction.rto
 	)
-	// Starting client transaction.
-	if startErr := c.start(transaction); startErr != nil {
-		c.delete(id)
-		event.Error = startErr
-		transaction.handle(event)
-		putClientTransaction(transaction)
+	c.mux.Unlock()
+	timeOut := c.clock.Now().Add(timeOutAfter)
+	// Client could be closed meanwhile.
+	c.mux.RLock()
+	closed = c.closed
+	c.mux.RUnlock()
+	if closed {
+		if t, ok := c.take(id); ok {
+			event.Error = ErrClientClosed
+			t.handle(event)
+			putClientTransaction(t)
+		}
 
 		return
 	}
-	// The transaction is registered again: from now on it can be completed and
-	// returned to the pool by concurrent response or close, so it must be
-	// looked up again instead of using the transaction pointer.
+	// The transaction can be completed and returned to the pool by concurrent
+	// response or close since the lock is released, so it must be looked up
+	// again instead of using the transaction pointer.
 	// Starting agent transaction.
 	if startErr := c.a.Start(id, timeOut); startErr != nil {
 		if t, ok := c.take(id); ok {
